@@ -54,3 +54,36 @@ Fixpoint dknown (fuel : nat) (ss : list dstmt) : bool :=
   end.
 Theorem aexit_code_known : dknown 6 aexit_code = true /\ hd DSUnknown aexit_code = DUnset.
 Proof. split; reflexivity. Qed.
+
+(* ---------- _set_task_deadline / _unset_task_deadline ---------- *)
+Theorem generated_set_deadline s d :
+  exists x, trun 12 d (tctx_of s) set_deadline_code = Some x /\
+    t_ds x = deadlines (set_deadline s d) /\ t_tod x = timed_out (set_deadline s d) /\ t_armed x = armed (set_deadline s d).
+Proof.
+  unfold set_deadline, tctx_of. destruct (deadlines s) as [|a l] eqn:Ed.
+  - cbn. eexists. split; [reflexivity|]. cbn. auto.
+  - cbn -[minl]. destruct (minl (a :: l)) as [m|] eqn:Em; [|discriminate].
+    destruct (d <? m); cbn -[minl]; eexists; (split; [reflexivity|]); cbn -[minl]; auto.
+Qed.
+
+Theorem generated_unset_deadline s :
+  exists x, trun 12 0 (tctx_of s) unset_deadline_code = Some x /\
+    let '(tod, uncaught, s') := unset_deadline s in
+    t_read x = tod /\ t_unc x = uncaught /\ t_ds x = deadlines s' /\ t_armed x = armed s' /\ t_tod x = timed_out s'.
+Proof.
+  unfold unset_deadline, tctx_of. cbn -[minl removelast opt_in].
+  destruct (removelast (deadlines s)) as [|a l] eqn:Er; cbn -[minl removelast opt_in]; rewrite ?Er;
+    eexists; (split; [reflexivity|]); cbn -[minl removelast opt_in]; rewrite ?Er; repeat split; reflexivity.
+Qed.
+
+Fixpoint tknown (fuel : nat) (ss : list tstmt) : bool :=
+  match fuel with
+  | O => false
+  | S f => forallb (fun s => match s with
+                             | TSUnknown => false
+                             | TIf TCUnknown _ _ => false
+                             | TIf _ a b => tknown f a && tknown f b
+                             | _ => true end) ss
+  end.
+Theorem deadline_code_known : tknown 5 set_deadline_code && tknown 5 unset_deadline_code = true.
+Proof. reflexivity. Qed.
